@@ -95,7 +95,9 @@ def expand_helpers(repo: Repo, ci: ClassInfo, expr: ast.AST, domain_cls: Optiona
     if expr is None:
         return None
     accept = accept or (lambda fi: fi.name.startswith("_") and not fi.name.startswith("__"))
-    return _Inline(repo, ci, domain_cls, depth, accept).visit(copy.deepcopy(expr))
+    out = _Inline(repo, ci, domain_cls, depth, accept).visit(copy.deepcopy(expr))
+    from .canon import recanon
+    return recanon(out)  # an inlined tuple indexed by a constant, conditions that became decidable, ...
 
 
 def _ifexp_tree(items):
